@@ -29,21 +29,26 @@ def escape_char(text):
 
 def unescape_char(text):
     assert isinstance(text, (str, bytes))
-    # NOTE: ORDER MATTERS!
+    # single pass, so that an escaped backslash is never re-read as the
+    # start of another escape sequence
     if isinstance(text, str):
-        return text.replace('\\N', '\\n')\
-                   .replace('\r\n', '\n')\
-                   .replace('\\n', '\n')\
-                   .replace('\\,', ',')\
-                   .replace('\\;', ';')\
-                   .replace('\\\\', '\\')
+        return _UNESCAPE_STR.sub(_unescape_match_str, text)
     elif isinstance(text, bytes):
-        return text.replace(b'\\N', b'\\n')\
-                   .replace(b'\r\n', b'\n')\
-                   .replace(b'\\n', b'\n')\
-                   .replace(b'\\,', b',')\
-                   .replace(b'\\;', b';')\
-                   .replace(b'\\\\', b'\\')
+        return _UNESCAPE_BYTES.sub(_unescape_match_bytes, text)
+
+
+_UNESCAPE_STR = re.compile(r'\\([\\;,nN])|\r\n')
+_UNESCAPE_BYTES = re.compile(rb'\\([\\;,nN])|\r\n')
+
+
+def _unescape_match_str(match):
+    char = match.group(1)
+    return '\n' if char is None or char in 'nN' else char
+
+
+def _unescape_match_bytes(match):
+    char = match.group(1)
+    return b'\n' if char is None or char in b'nN' else char
 
 
 def foldline(line, limit=75, fold_sep='\r\n '):
